@@ -179,6 +179,15 @@ func GenFS(r *core.Rand, dir string, cfg *FSCfg) *FSLayout {
 			writeFile(md+"/"+rel, "package x\n")
 			addFrame(FSFrame{Remote: md + "/" + rel, Local: md + "/" + rel, Rel: rel, Import: ip, Class: FSGoMod, Exists: true, Pkg: ip, Explains: md})
 		}
+		if r.Chance(1, 3) {
+			// a sibling module whose directory name has this module's directory as a string prefix ("/m" vs "/m2")
+			sd := md + "2"
+			simp := fmt.Sprintf("example.com/sibling%d", i)
+			writeFile(sd+"/go.mod", "module "+simp+"\n")
+			writeFile(sd+"/s.go", "package s\n")
+			l.Mods[sd] = simp
+			addFrame(FSFrame{Remote: sd + "/s.go", Local: sd + "/s.go", Rel: "s.go", Import: simp, Class: FSGoMod, Exists: true, Pkg: simp, Explains: sd})
+		}
 		if cfg.Nested && r.Bool() {
 			// nested module inside this one
 			nd := md + "/nested"
